@@ -293,7 +293,7 @@ def annotate(s, run, want_dec=False):
         problems.append(("layout %s %s" % ((bad or [{"rule": "no-directory-pack"}])[0]["rule"], esig(s)), dict(desc, layout=bad[:5])))
         return evs, problems
     es = pk["entryStores"][0]
-    evs.append({"ev": "Scn", "scn": sid, "sorted": bool(s["schema"].get("sort"))})
+    evs.append({"ev": "Scn", "scn": sid, "sortKeys": s["schema"].get("sort") or []})
     for j, e in enumerate(s["entries"]):
         vals = {}
         for n, v in e["values"].items():
